@@ -351,7 +351,9 @@ def handle (env : Env) (s : State) : Msg → Out
     { st := us.foldl (fun s u => s.touchUser u) s, evs := [.privilegedUsers us] }
   -- 368-373
   | .addPrivileged u =>
-    { st := s.withUser u (fun x => { x with privileged := true }), evs := [.privilegedUserAdded u] }
+    -- the user is added to `_privileged_users` too (fix bbc28a8): a User object created later starts privileged
+    { st := ({ s with privSet := u :: s.privSet } : State).withUser u (fun x => { x with privileged := true }),
+      evs := [.privilegedUserAdded u] }
   -- 375-382
   | .addUser u ex status stats country =>
     if !ex then { st := s.touchUser u }
